@@ -186,11 +186,12 @@ func validateTrace(c *core.Ctx, module, cfg string, consts map[string]string, tr
 		files[k] = v
 	}
 	// depth-first queue: the search stops at the first complete explanation (TLCSet("exit") in the spec).
-	// Depth-first search can get lost in a dead branch; after 3 minutes it is abandoned for a
+	// Depth-first search can get lost in a dead branch; after a time limit it is abandoned for a
 	// breadth-first search, whose cost is bounded by the number of states that explain a prefix.
-	r, err := c.TLC(core.TLCOpts{Module: module, Cfg: cfg, Consts: consts, Files: files, Workers: 1, DFS: true, Timeout: 3 * time.Minute})
+	dfsLimit := time.Duration(c.Pick(90, 180)) * time.Second
+	r, err := c.TLC(core.TLCOpts{Module: module, Cfg: cfg, Consts: consts, Files: files, Workers: 1, DFS: true, Timeout: dfsLimit})
 	if err != nil && strings.Contains(err.Error(), "timed out") {
-		c.Logf("depth-first trace validation abandoned after 3 min, falling back to breadth-first")
+		c.Logf("depth-first trace validation abandoned after %v, falling back to breadth-first", dfsLimit)
 		c.Add("trace_validation_bfs_fallbacks", 1)
 		r, err = c.TLC(core.TLCOpts{Module: module, Cfg: cfg, Consts: consts, Files: files, Workers: 1, Timeout: 14 * time.Minute})
 	}
